@@ -22,8 +22,10 @@ Record obs := { ob_ret : oret; ob_events : list oev;
 Inductive mop := MSend (now id r method:N) (app:list attr) | MInd (method:N) (app:list attr) | MRecv (now:N) (decodable:bool) (m:msg) | MTmo (now:N).
 
 Record sent := { s_id : N; s_t0 : N; s_r : N; s_ntx : N }.
-Record mstate := { ms_sent : list sent; ms_fin : list N; ms_K : list N }.
-Definition mstate0 := {| ms_sent := []; ms_fin := []; ms_K := [] |}.
+(* ms_marked: requests one of whose responses was rejected for failing authentication (the marker appeared in the snapshot
+   at that rejection) and that have not had a final outcome since; maintained by the monitor, not read back later *)
+Record mstate := { ms_sent : list sent; ms_fin : list N; ms_K : list N; ms_marked : list N }.
+Definition mstate0 := {| ms_sent := []; ms_fin := []; ms_K := []; ms_marked := [] |}.
 Record mcfg := { mc_reliable : bool; mc_rm : N; mc_rc : N; mc_limit : N }.
 
 Definition memN (x:N) (l:list N) : bool := existsb (N.eqb x) l.
@@ -145,7 +147,10 @@ Definition next_state (s:mstate) (op:mop) (o:obs) : mstate :=
                | _, _ => ms_sent s
                end in
   let sent2 := fold_left (fun l e => match e with EOut i false _ _ => bump i l | _ => l end) (ob_events o) sent1 in
-  {| ms_sent := sent2; ms_fin := finals (ob_events o) ++ ms_fin s; ms_K := ob_K o |}.
+  let newly := match op with MRecv _ _ _ => filter (fun i => negb (memN i (ms_K s))) (ob_K o) | _ => [] end in
+  let fin := finals (ob_events o) in
+  {| ms_sent := sent2; ms_fin := fin ++ ms_fin s; ms_K := ob_K o;
+     ms_marked := filter (fun i => negb (memN i fin)) (newly ++ ms_marked s) |}.
 
 
 (* ================================================================== content monitors (C07, C08, C10, C13) *)
@@ -303,21 +308,21 @@ Definition get_code (l:list attr) := match find (fun a => match a with ErrorCode
    (user-name anonymity) are those announced by the nonce cookie of its 401 challenge; 0 = accepted,
    1 = no integrity attribute (-> 401 again), 2 = PASSWORD-ALGORITHM(S) missing or not matching, 3 = other *)
 Definition server_verdict (s:lt_mon) (req:list attr) : N :=
-  let integ := find is_integ req in
-  match integ with
+  let user_ok := if lm_anon s
+                 then existsb (fun a => attr_eqb a (UserHash 0 (lm_realm s))) req && negb (existsb (fun a => wire_type a =? 6) req)
+                 else existsb (fun a => attr_eqb a (UserName 0)) req && negb (existsb (fun a => wire_type a =? 30) req) in
+  let rn_ok := (match get_realm req with Some r => r =? lm_realm s | None => false end)
+               && (match get_nonce req with Some n => (fst n =? fst (lm_nonce s)) && (snd n =? snd (lm_nonce s)) | None => false end) in
+  (* identity, realm and nonce are judged first so that the known classes below never mask another defect *)
+  if negb (user_ok && rn_ok) then 3 else
+  match find is_integ req with
   | None => 1
   | Some ia =>
-      let user_ok := if lm_anon s
-                     then existsb (fun a => attr_eqb a (UserHash 0 (lm_realm s))) req
-                     else existsb (fun a => attr_eqb a (UserName 0)) req in
-      let rn_ok := (match get_realm req with Some r => r =? lm_realm s | None => false end)
-                   && (match get_nonce req with Some n => (fst n =? fst (lm_nonce s)) && (snd n =? snd (lm_nonce s)) | None => false end) in
-      if negb (user_ok && rn_ok) then 3 else
       match lm_algs s with
       | None =>
           (* no list was offered: MD5 key, neither algorithm attribute expected *)
           match get_algs req, get_alg req with
-          | None, None => if keyd_eqb (mac_key ia) (KLT (lm_realm s) 0 MD5) then 0 else 3
+          | None, None => if a_is_mi ia && keyd_eqb (mac_key ia) (KLT (lm_realm s) 0 MD5) then 0 else 3
           | _, _ => 2
           end
       | Some l =>
@@ -401,7 +406,7 @@ Definition mall0 (c:ccfg) : mall :=
 Definition monitor_step (c:mcfg) (cc:ccfg) (s:mall) (op:mop) (o:obs) : mall * list (N * bool * N) :=
   let core := ma_core s in
   let core' := next_state core op o in
-  let '(st', v07) := mon_C07 cc (ma_st s) (ms_K core) op o in
+  let '(st', v07) := mon_C07 cc (ma_st s) (ms_marked core) op o in
   let '(lt', v08) := mon_C08 cc (ma_lt s) op o in
   ({| ma_core := core'; ma_st := st'; ma_lt := lt' |},
    [(5, mon_C05 core core' o, 0); (6, mon_C06 c core op o, 0); (11, mon_C11 core' op o, 0); (12, mon_C12 c core op o, 0);
